@@ -5,6 +5,45 @@ V = os.path.dirname(os.path.dirname(os.path.abspath(__file__)))
 TECH = "bounded symbolic execution of the real Rust code (Kani 0.68 -> CBMC 6.11, CaDiCaL); solver verdict per harness, counterexamples replayed natively"
 CLAIMS = {
  # id: (level text, level note, design ref)
+ "C01": ("Bounded model checking for absence of panics (unwrap/expect, arithmetic overflow, out-of-bounds, unreachable) and of unbounded loops (unwinding assertions) in every synchronous decode unit driven by arbitrary peer bytes: link sync/header/body steps and dispatch, assembler step with real buffer sizes, application fragment header, every object variation x qualifier container (parse and iterate), event-ledger counters.  Kani's implicit checks are the property; every harness of the families C06/C08/C09/C03 tagged C01 contributes.",
+         "Per-unit: liveness after the hostile input (keeps serving), socket chunking and everything in async session/task code is outside the claim; logging is stubbed (Display never evaluated).",
+         "DESIGN.md §5 C01"),
+ "C03": ("Bounded model checking of the event ledger on the real EventBuffer: after every operation of an operation-kind skeleton (insert x2 types, select, write, confirm-clear, reset; all data symbolic) counters equal ground truth recomputed from the list, release happens only by clear_written with exactly-once event_cleared(id), oldest-first, overflow discards the oldest of the same type and reports both ids.",
+         "Skeleton lengths <= 4 in the quick tier (<= 6 attempted in thorough), capacities 2+1, Event::write abstracted to fits/does-not-fit. Which session paths call reset/clear_written (async confirm waits) is outside the claim.",
+         "DESIGN.md §5 C03"),
+ "C05": ("Bounded model checking of repeat recognition on a real OutstationSession: classify says Repeat <=> same sequence AND same xxh64 of the fragment (real hash), READ/non-READ split, confirms never repeats, broadcast before everything; session reset forgets the last request.",
+         "Thin: that a recognised repeat is not executed again and that the echo is byte-identical on the wire lives in async code and is NOT decided. Fragments of 2-3 bytes (the real hash is intractable beyond).",
+         "DESIGN.md §5 C05"),
+ "C09": ("Bounded model checking, one harness per (variation, container, index width) generated from the container enums of the code with object sizes from a hand-written table of IEEE 1815 Annex A: accepted => bytes consumed = what group/variation/qualifier/count imply, iteration yields exactly count objects with the declared indices, each re-encoding to the bytes it was read from (read/write agree), second pass == first pass; rejected => justified; fragment headers for both directions.",
+         "At most 2 objects per header accepted (counts beyond are rejected for lack of bytes, which is also checked); free-format (g70) and attribute (g0) objects and multi-header fragments are not in the generated family; request builders are covered through the response/command writers they share.",
+         "DESIGN.md §5 C09"),
+ "C10": ("Bounded model checking of every measurement <-> variation conversion pair found in app/gen/conversion.rs (69 pairs): measurement (all value bit patterns, flags, time) -> variation -> wire bytes -> variation -> measurement, with capability table from the standard: saturation + OVER_RANGE, low 16 bits for counters, state bits in flags, time carried exactly, nothing wrapped or sign-flipped.",
+         "Static/event writers' header logic (promote, CTO grouping) and the master's extraction loop are not composed into these queries.",
+         "DESIGN.md §5 C10"),
+ "C12": ("Bounded model checking of the synchronous response builders on a real OutstationSession: sequence = request's, UNS clear, FIR/FIN, objects exactly as specified and bounded, every object parse error maps to a non-empty IIN2, per-header rejections OR-ed (ENABLE/DISABLE_UNSOLICITED), restart-bit write semantics.",
+         "The async dispatcher (which functions get no reply, WRITE's per-header loop, controls, wait states) is outside the claim; multi-header ENABLE/DISABLE cases only in the thorough tier (slow).",
+         "DESIGN.md §5 C12"),
+ "C13": ("Bounded model checking of IIN truth: class bits/overflow vs ground truth after every event-buffer operation (shared with C03), get_response_iin bit mapping on a real session (restart, broadcast life-cycle for the three confirm modes, application bits), restart bit cleared only by WRITE g80v1[7]=0, not by reconnect.",
+         "Timing of updates relative to a pending confirm is async and outside the claim.",
+         "DESIGN.md §5 C13"),
+ "C15": ("Bounded model checking of the master's acceptance predicates: response-header validation over all control/function/IIN octets (UNS <=> unsolicited function, unsolicited => FIR and FIN), duplicate-unsolicited detection (header + digest), reset forgets the last unsolicited fragment.",
+         "Thin: sequence/source matching, multi-fragment rules and CONFIRM emission live in async fns of MasterSession and are NOT decided.",
+         "DESIGN.md §5 C15"),
+ "C16": ("Bounded model checking of the command echo comparison: for 1-2 commands per header (all fields symbolic), the reply being the faithful echo with optionally one byte XOR-ed by any mask and a count off by one: success <=> untouched echo and all statuses SUCCESS; header type mismatches rejected.",
+         "Exactly-one-outcome over failure points, promises and timeouts (async) are outside the claim; multi-header requests are covered only through the per-header comparison.",
+         "DESIGN.md §5 C16"),
+ "C17": ("Bounded model checking on a real Association: restart/need-time/overflow indications re-arm exactly the specified automatic tasks from any task state, reset re-arms start-up, back-off is min, doubling, capped at max as one inductive step (runs of any length), failure schedules now+delay.",
+         "The fixed priority order (TaskStates::next returns big task enums by value) and ordering across reconnects are not decided.",
+         "DESIGN.md §5 C17"),
+ "C18": ("Bounded model checking of both halves of the time-sync arithmetic with symbolic clocks: outstation RECORD_CURRENT_TIME + WRITE g50v3 yields exactly T + elapsed or PARAMETER_ERROR on overflow/clock error; master propagation delay = (round trip - reported delay)/2 on the source expression, error = half the asymmetry; 48-bit overflow => failure; NEED_TIME still set => failure.",
+         "handle_delay_measure as a whole (response parsing + task enum by value) is attempted only in the thorough tier; unrelated interleaved traffic is outside.",
+         "DESIGN.md §5 C18"),
+ "C19": ("Bounded model checking of poll scheduling primitives: poll ready exactly from completion + period (or at once on demand), PollMap::next returns Now iff something is due and otherwise the earliest deadline strictly in the future (no spinning), keep-alive deadline = last activity + timeout.",
+         "Thin: request-before-poll order, fairness between associations and one-outstanding-request are in the async run loop / big task enums and are NOT decided.",
+         "DESIGN.md §5 C19"),
+ "C20": ("Bounded model checking of the binding layer's conversions: every enum conversion impl with a like-named native enum (generated from both enum definitions) maps each variant to its namesake; measurement structs, flags, the three time qualities and event classes field-for-field.",
+         "Conversions involving strings, errors collapsed to ParamError and raw-pointer database entry points are not covered.",
+         "DESIGN.md §5 C20"),
  "C06": ("Bounded model checking of the link codec: table CRC step == bit-serial CRC-16/DNP for all 2^24 (acc,byte) pairs, GF(2)-linearity, header accept <=> length>=5 and reference CRC with fields decoded as transmitted, Hamming distance >= 4 of header and body blocks via syndromes built by the real CRC code, body de-framing for payload lengths 1..250 and format->parse round trips for 0..249 application bytes (checksum abstracted there), sync-search automaton and step atomicity in discard/close mode.",
          "Induction over bytes (CRC) and over calls (chunk independence) are arguments, the steps are solver results. CRC abstracted by a cheap checksum inside the framing loops. Reader::read_frame (async), datagram-mode reset and resynchronisation inside an already-consumed header (state ReadBody) are outside the claim.",
          "DESIGN.md §5 C06"),
@@ -20,6 +59,7 @@ CLAIMS = {
 }
 NA = {
  "C02": "needs two tokio tasks, user threads, real sockets and reconnect timing; Kani/CBMC has no concurrency or I/O model, and cutting those away leaves nothing of the property",
+ "C11": "claimed in DESIGN.md as partial (static selection/write on a BTreeMap-backed database); the harness family is not built in this revision, so the property is not claimed",
  "C14": "every clause is temporal over tokio::select!/timer code (async confirm-wait loops) that bounded symbolic execution could not execute (DESIGN.md §2.9)",
 }
 PENDING = "check not built yet in this revision of /verif (see DESIGN.md for the plan); not claimed until a registered harness family exists"
